@@ -18,6 +18,12 @@ HOUSE = {
 }
 
 
+# kinds whose literals are sometimes written as whole numbers (not the ones
+# tied to another literal by an equality: module, helix and pressure angle)
+INT_KINDS = ('InertiaMoment', 'Torque', 'AngularSpeed', 'Current', 'Stress',
+             'AngularPosition', 'Time', 'TimeInterval')
+
+
 class G:
     def __init__(self, seed, cfg=None):
         self.rng = random.Random(seed)
@@ -41,7 +47,12 @@ class G:
 
     def q(self, kind, si_value, unit=None):
         u = unit or self.unit(kind)
-        return [si_value / si.factor(kind, u), u]
+        v = si_value / si.factor(kind, u)
+        if kind in INT_KINDS and abs(v) >= 10 and abs(v) < 1e15 and \
+                self.chance(0.04):
+            # the user writes a round number: a Python int, not a float
+            v = int(round(v))
+        return [v, u]
 
     # -- elements
     def motor(self, name, current=None):
@@ -746,6 +757,23 @@ def gen_lock(g):
             sched.append({'op': 'reset', 'reapply': g.chance(0.7)})
             sched.append(gen_run(g, k, kdt=g.logu(0.02, 1.0),
                                  solver=r.choice(['same', 'new'])))
+    mids = [c for c in chain[1:-1]
+            if scn['elements'][c]['kind'] in rm.GEAR_KINDS]
+    if mids and g.chance(0.15) and not g.cfg.get('differential'):
+        # a second external torque on an intermediate gear (for the motor it
+        # replaces what comes from downstream): the motor's net torque and
+        # the output's net torque may then point in opposite directions
+        l2 = gen_load(g, model, chain, overload=r.choice([0.5, 2, 10, 100]),
+                      families=r.choice([['const'], ['const'],
+                                         ['const', 'visc'], ['step']]))
+        l2['on'] = r.choice(mids)
+        if g.chance(0.5):
+            # small load on the output, big one upstream
+            for t in scn['load']['terms']:
+                for key in ('c', 'A', 'F'):
+                    if key in t:
+                        t[key] *= 0.01
+        scn['load2'] = l2
     worms = [d for d in scn['decls'] if d['op'] == 'worm' and
              scn['elements'][d['m']]['kind'] == 'WormGear']
     if worms and g.chance(0.15):
